@@ -234,6 +234,7 @@ impl Report {
         if unknown.is_empty() {
             return 0;
         }
+        let mut printed = std::collections::BTreeSet::new();
         for (i, f) in unknown.iter().enumerate() {
             let sig = format!("{:016x}", crate::explore::fp128(&(f.config.as_str(), f.clause.as_str())) as u64);
             let path = dir
@@ -248,6 +249,9 @@ impl Report {
                 "tags": f.tags,
                 "actions": f.trace,
             });
+            if !printed.insert(path.clone()) {
+                continue;
+            }
             let _ = std::fs::write(&path, serde_json::to_string_pretty(&body).unwrap());
             if i < 5 {
                 println!("  clause={} config={} steps={} detail={}", f.clause, f.config, f.trace.len(), f.detail);
